@@ -136,6 +136,11 @@ pub struct GenOpts {
     pub racy_discard_pct: u32,
     /// number of SyncPoint ops (flush_meta + fsync_range at quiescence) to insert
     pub sync_points: u32,
+    /// percent of runs whose top image has an L1 table spanning several
+    /// device blocks (small clusters, virtual size of 65..200 L2 tables)
+    pub wide_l1_pct: u32,
+    /// set by gen_cfg for the run being generated
+    pub wide_l1_now: bool,
 }
 
 impl Default for GenOpts {
@@ -167,6 +172,8 @@ impl Default for GenOpts {
             read_only_pct: 0,
             racy_discard_pct: 30,
             sync_points: 0,
+            wide_l1_pct: 8,
+            wide_l1_now: false,
         }
     }
 }
@@ -227,6 +234,9 @@ pub fn gen_layer(rng: &mut Rng, o: &GenOpts, cluster_bits: u32, top: bool, idx_i
         } else {
             (rb_cover * rng.range(2, 5) + cs * rng.below(64)).min(4 << 20)
         };
+    }
+    if o.wide_l1_now && top {
+        vsize = l2cover * rng.range(65, 200) + cs * rng.below(cs / 8);
     }
     let builder = o.force_builder || version == 2 || (o.allow_builder && rng.chance(1, 2)) || !top;
     let mut guest: Vec<(u64, u8)> = Vec::new();
@@ -291,11 +301,17 @@ pub fn gen_layer(rng: &mut Rng, o: &GenOpts, cluster_bits: u32, top: bool, idx_i
 }
 
 pub fn gen_cfg(rng: &mut Rng, o: &GenOpts) -> Cfg {
+    let wide = !o.growth_geometry && o.wide_l1_pct > 0 && rng.below(100) < o.wide_l1_pct as u64;
     let cluster_bits = if o.growth_geometry {
         *rng.pick(&[9u32, 9, 9, 10])
+    } else if wide {
+        *rng.pick(&[9u32, 9, 10])
     } else {
         pick_cluster_bits(rng, &o.cb_weights)
     };
+    let mut o = o.clone();
+    o.wide_l1_now = wide;
+    let o = &o;
     let mut layers = vec![gen_layer(rng, o, cluster_bits, true, 0)];
     let depth = if o.force_backing {
         rng.range(1, 2)
@@ -314,6 +330,7 @@ pub fn gen_cfg(rng: &mut Rng, o: &GenOpts) -> Cfg {
         let mut bo = o.clone();
         bo.force_builder = true;
         bo.l1_short_pct = 0;
+        bo.wide_l1_now = false;
         let mut l = gen_layer(rng, &bo, cb, false, d as usize + 1);
         let top_v = layers[0].vsize;
         let cs = 1u64 << cb;
@@ -428,6 +445,15 @@ impl OpGen {
             if se < gcl {
                 cand.push(se - 1);
                 cand.push(se);
+            }
+        }
+        // L1 block boundaries (the unit in which the L1 table is written)
+        let per_blk = (cfg.bs() / 8) * l2n;
+        if gcl > per_blk {
+            for _ in 0..3 {
+                let k = rng.range(1, (gcl - 1) / per_blk);
+                cand.push(k * per_blk - 1);
+                cand.push(k * per_blk);
             }
         }
         for (g, _) in &cfg.layers[0].guest {
